@@ -68,7 +68,7 @@ def fam_C04(tier, seed):
             [("F2", "F1"), ("V", "F1"), ("F1", "Z"), ("F3", "F1")], [dict(), dict(sel=True), dict(cumul=True)],
             [([[1, 2]], 3, 0, 0, None), ([[0, 1]], 3, 0, 0, None), ([[2, 3]], 4, 0, 0, None),
              ([[1, 2]], 3, 0, 1, None), ([[1, 2]], 3, 3, 0, None), ([[1, 2]], 3, 0, 0, 5),
-             ([[1, 3]], 4, 2, 0, 7), ([[0, 1], [2, 3]], 4, 0, 0, None)]):
+             ([[1, 3]], 4, 2, 0, 7), ([[0, 1], [2, 3]], 4, 0, 0, None), ([[1, 3]], 4, 0, 0, None), ([[0, 2]], 3, 0, 1, None)]):
         b = PB(7, tag="ResourcePeriodicallyUnavailable")
         _, res = _two_on_worker(b, k1, k2, **md)
         b.con("ResourcePeriodicallyUnavailable", res=res, intervals=ivs, period=period, start=st, offset=off,
@@ -84,8 +84,8 @@ def fam_C04(tier, seed):
         ps.append(b.done())
     # ResourcePeriodicallyInterrupted
     for (k1, k2), md, (ivs, period, st, off, en) in itertools.product(
-            [("V", "F1"), ("F2", "F1"), ("F3", "F1")], [dict(), dict(cumul=True)],
-            [([[1, 2]], 3, 0, 0, None), ([[2, 3]], 4, 0, 0, None), ([[1, 2]], 3, 0, 1, None), ([[1, 2]], 5, 0, 0, None),
+            [("V", "F1"), ("F2", "F1"), ("F3", "F1")], [dict(), dict(cumul=True), dict(sel=True), dict(opt2=True)],
+            [([[1, 2]], 3, 0, 0, None), ([[2, 3]], 4, 0, 0, None), ([[1, 2]], 3, 0, 1, None), ([[1, 2]], 5, 0, 0, None), ([[1, 3]], 4, 0, 0, None),
              ([[1, 2]], 3, 3, 0, None), ([[1, 2]], 3, 0, 0, 5)]):
         b = PB(7, tag="ResourcePeriodicallyInterrupted")
         _, res = _two_on_worker(b, k1, k2, **md)
